@@ -170,6 +170,7 @@ def from_model(h, k, rng):
         a = e["a"]
         c = e.get("c")
         f = e.get("f", "none")
+        n0 = len(steps)
         if a == "Tick":
             steps.append({"a": "Tick", "to": e["to"]})
         elif a == "Expire":
@@ -229,6 +230,8 @@ def from_model(h, k, rng):
             steps.append({"a": "Restart"})
         else:
             raise vlib.InfraError("unknown model action %r" % a)
+        if "del" in e:      # what the model (documented behaviour) expects this reconcile to delete
+            steps[n0]["expect"] = sorted(e["del"])
     return steps
 
 
@@ -520,7 +523,8 @@ def account(files, nshards):
             e = ev["e"]
             if e == "Cfg":
                 k += 1
-                cur = {"tag": ev.get("tag", ""), "deletes": [], "panics": 0}
+                cur = {"tag": ev.get("tag", ""), "deletes": [], "panics": 0, "by_step": {}}
+                step = None
                 per[shard + k * nshards] = cur
                 live = {}
             elif e in ("Api", "Env") and ev.get("kind") == "NodeClaim":
@@ -529,6 +533,8 @@ def account(files, nshards):
                 if e == "Api" and ok and ev["verb"] == "delete" and ev["actor"] in REAPERS and live.get(ev["name"]) is False:
                     cur["deletes"].append(REAPERS[ev["actor"]])
                     counts["delete:" + REAPERS[ev["actor"]]] += 1
+                    if step is not None:
+                        cur["by_step"][step].append(ev["name"])
                 if e == "Api" and ev.get("injected"):
                     counts["injected:%s/%s" % (ev["verb"], ev["kind"])] += 1
                 if ok:
@@ -540,7 +546,39 @@ def account(files, nshards):
                 counts["injected:%s/%s" % (ev["verb"], ev["kind"])] += 1
             elif e == "Prov" and ev.get("call") == "List" and ev.get("err") != "-":
                 counts["injected:provider/List"] += 1
-            elif e == "End" and ev.get("panic"):
-                cur["panics"] += 1
-                counts["panic:" + ev["controller"]] += 1
+            elif e == "Begin":
+                step = ev.get("step")
+                cur["by_step"][step] = []
+            elif e == "End":
+                step = None
+                if ev.get("panic"):
+                    cur["panics"] += 1
+                    counts["panic:" + ev["controller"]] += 1
     return per, counts
+
+
+def model_drift(behs, per):
+    """Compare, for the model-generated behaviours, the deletes the model expected of each reconcile with what the real
+    controller did.  Diagnostic only (MODEL-DRIFT notes): the model is the documented behaviour, the verdict is the
+    guards'.  Returns counters {agree, model_only (real more conservative / clock drift), real_only}."""
+    import collections
+    c = collections.Counter()
+    examples = []
+    for i, b in enumerate(behs):
+        for j, st in enumerate(b["steps"]):
+            if "expect" not in st:
+                continue
+            real = sorted(per[i]["by_step"].get(j, []))
+            key = st["a"].lower()
+            if real == st["expect"]:
+                c[key + ":agree"] += 1
+                if real:
+                    c[key + ":agree-delete"] += 1
+            else:
+                kind = "real_only" if set(real) - set(st["expect"]) else "model_only"
+                if st["a"] == "Gc" and st.get("lookupFail") and kind == "real_only":
+                    kind = "real_only(lookup-failed)"
+                c[key + ":" + kind] += 1
+                if len(examples) < 5:
+                    examples.append({"behaviour": i, "step": j, "a": st["a"], "model": st["expect"], "real": real})
+    return dict(c), examples
